@@ -1692,3 +1692,199 @@ func TestGovcReplay(t *testing.T) {
 		},
 	})
 }
+
+func init() {
+	harnesses = append(harnesses, &harness{
+		name:      "phase-cycle guard replay (real OnReceive, num_retries = 12, every try fails to connect)",
+		modelFree: true,
+		match: func(o *Obligation) bool {
+			return strings.Contains(o.Func, "proxy.(*downStream).OnReceive$1") && !strings.Contains(o.Func, "OnReceive$1$")
+		},
+		run: func(eng *Engine, o *Obligation) *ReplayOutcome {
+			src := `package proxy
+
+import (
+	"context"
+	"fmt"
+	"sync/atomic"
+	"testing"
+	"time"
+
+	"mosn.io/api"
+	v2 "mosn.io/mosn/pkg/config/v2"
+	"mosn.io/mosn/pkg/network"
+	"mosn.io/mosn/pkg/protocol"
+	"mosn.io/mosn/pkg/router"
+	"mosn.io/mosn/pkg/types"
+	"mosn.io/mosn/pkg/upstream/cluster"
+	"mosn.io/pkg/variable"
+)
+
+// ---- fakes (all names prefixed with zzDemo to avoid clashes) ----
+
+type zzDemoRetryPolicy struct{}
+
+func (zzDemoRetryPolicy) RetryOn() bool                  { return false } // default policy
+func (zzDemoRetryPolicy) TryTimeout() time.Duration      { return 0 }     // no per-try timeout (default)
+func (zzDemoRetryPolicy) NumRetries() uint32             { return 12 }
+func (zzDemoRetryPolicy) RetryableStatusCodes() []uint32 { return nil }
+
+type zzDemoPolicy struct{ api.Policy }
+
+func (zzDemoPolicy) RetryPolicy() api.RetryPolicy { return zzDemoRetryPolicy{} }
+
+type zzDemoRouteRule struct{ api.RouteRule }
+
+func (zzDemoRouteRule) ClusterName(context.Context) string { return "zz_demo" }
+func (zzDemoRouteRule) UpstreamProtocol() string           { return "" }
+func (zzDemoRouteRule) GlobalTimeout() time.Duration       { return 300 * time.Millisecond }
+func (zzDemoRouteRule) Policy() api.Policy                 { return zzDemoPolicy{} }
+func (zzDemoRouteRule) FinalizeRequestHeaders(context.Context, api.HeaderMap, api.RequestInfo) {
+}
+func (zzDemoRouteRule) FinalizeResponseHeaders(context.Context, api.HeaderMap, api.RequestInfo) {
+}
+
+// upstream stream that never produces any event by itself
+type zzDemoStream struct{ resets int32 }
+
+func (s *zzDemoStream) ID() uint64                                   { return 1 }
+func (s *zzDemoStream) AddEventListener(types.StreamEventListener)    {}
+func (s *zzDemoStream) RemoveEventListener(types.StreamEventListener) {}
+func (s *zzDemoStream) ResetStream(types.StreamResetReason)           { atomic.AddInt32(&s.resets, 1) }
+func (s *zzDemoStream) DestroyStream()                                {}
+
+// sender used both as the (black hole) upstream request sender and as the downstream response sender
+type zzDemoSender struct {
+	stream      zzDemoStream
+	headersSent int32
+	dataSent    int32
+	lastHeaders atomic.Value
+}
+
+func (s *zzDemoSender) AppendHeaders(_ context.Context, h api.HeaderMap, _ bool) error {
+	atomic.AddInt32(&s.headersSent, 1)
+	return nil
+}
+func (s *zzDemoSender) AppendData(context.Context, types.IoBuffer, bool) error {
+	atomic.AddInt32(&s.dataSent, 1)
+	return nil
+}
+func (s *zzDemoSender) AppendTrailers(context.Context, api.HeaderMap) error { return nil }
+func (s *zzDemoSender) GetStream() types.Stream                              { return &s.stream }
+
+// connection pool: either refuses (connection failure) or hands out a stream to a black hole
+type zzDemoPool struct {
+	types.ConnectionPool
+	host     types.Host
+	fail     bool
+	upstream *zzDemoSender
+	streams  int32
+}
+
+func (p *zzDemoPool) Host() types.Host { return p.host }
+func (p *zzDemoPool) NewStream(context.Context, types.StreamReceiveListener) (types.Host, types.StreamSender, types.PoolFailureReason) {
+	atomic.AddInt32(&p.streams, 1)
+	if p.fail {
+		return p.host, nil, types.ConnectionFailure
+	}
+	return p.host, p.upstream, ""
+}
+
+type zzDemoClusterManager struct {
+	types.ClusterManager
+	pool *zzDemoPool
+}
+
+func (m *zzDemoClusterManager) ConnPoolForCluster(types.LoadBalancerContext, types.ClusterSnapshot, api.ProtocolName) (types.ConnectionPool, types.Host) {
+	return m.pool, m.pool.host
+}
+
+
+type zzDemoRoute struct{ api.Route }
+
+func (zzDemoRoute) RouteRule() api.RouteRule                   { return &zzDemoRouteRule{} }
+func (zzDemoRoute) DirectResponseRule() api.DirectResponseRule { return nil }
+func (zzDemoRoute) RedirectRule() api.RedirectRule             { return nil }
+
+type zzDemoSnapshot struct {
+	types.ClusterSnapshot
+	info types.ClusterInfo
+}
+
+func (s *zzDemoSnapshot) ClusterInfo() types.ClusterInfo { return s.info }
+
+type zzDemoHandler struct{ snap types.ClusterSnapshot }
+
+func (h *zzDemoHandler) IsAvailable(context.Context, types.ClusterManager) (types.ClusterSnapshot, types.HandlerStatus) {
+	return h.snap, types.HandlerAvailable
+}
+func (h *zzDemoHandler) Route() api.Route { return zzDemoRoute{} }
+
+type zzDemoRouters struct{ types.Routers }
+type zzDemoRouterWrapper struct{ types.RouterWrapper }
+
+func (zzDemoRouterWrapper) GetRouters() types.Routers { return zzDemoRouters{} }
+
+type zzDemoServerConn struct{ types.ServerStreamConnection }
+
+func (zzDemoServerConn) EnableWorkerPool() bool      { return false } // the request is served on the calling goroutine
+func (zzDemoServerConn) Protocol() api.ProtocolName { return "Http1" }
+
+// The failed obligation says: the driver loop of downStream.OnReceive may give up (its cycle guard trips) although
+// fewer than 10 re-entries other than retries happened. Replay on the real OnReceive: default retry policy with
+// num_retries = 12, every try fails to connect. The request must end with exactly one reply (no healthy upstream /
+// connection failure) once the retries are used up; it must not be abandoned without any reply.
+func TestGovcReplay(t *testing.T) {
+	ctx := variable.NewVariableContext(context.Background())
+	info := cluster.NewClusterInfo(v2.Cluster{Name: "zz_demo", LbType: v2.LB_RANDOM})
+	host := cluster.NewSimpleHost(v2.Host{HostConfig: v2.HostConfig{Address: "127.0.0.1:1"}}, info)
+	failPool := &zzDemoPool{host: host, fail: true}
+	downstreamSender := &zzDemoSender{}
+	snap := &zzDemoSnapshot{info: info}
+	s := &downStream{
+		ID:             1,
+		context:        ctx,
+		responseSender: downstreamSender,
+		requestInfo:    &network.RequestInfo{},
+		notify:         make(chan struct{}, 1),
+		proxy: &proxy{
+			config:           &v2.Proxy{DownstreamProtocol: "Http1", UpstreamProtocol: "Http1"},
+			clusterManager:   &zzDemoClusterManager{pool: failPool},
+			routersWrapper:   zzDemoRouterWrapper{},
+			serverStreamConn: zzDemoServerConn{},
+			routeHandlerFactory: router.MakeHandlerFunc(func(context.Context, api.HeaderMap, types.Routers) types.RouteHandler {
+				return &zzDemoHandler{snap: snap}
+			}),
+			stats:         globalStats,
+			listenerStats: newListenerStats("zz_demo"),
+		},
+	}
+	s.initStreamFilterChain()
+	done := make(chan struct{})
+	go func() {
+		defer close(done)
+		s.OnReceive(ctx, protocol.CommonHeader{}, nil, nil)
+	}()
+	select {
+	case <-done:
+	case <-time.After(5 * time.Second):
+		fmt.Println("REPLAY-INCONCLUSIVE OnReceive still running after 5s")
+		s.OnResetStream(types.StreamConnectionTermination)
+		<-done
+		return
+	}
+	tries := atomic.LoadInt32(&failPool.streams)
+	replies := atomic.LoadInt32(&downstreamSender.headersSent)
+	if replies != 1 {
+		fmt.Printf("REPLAY-CONFIRMED OnReceive returned after %d tries (13 allowed by the policy) with %d replies to the client, cleaned=%d: the request is abandoned without an outcome\n",
+			tries, replies, atomic.LoadUint32(&s.downstreamCleaned))
+		return
+	}
+	fmt.Printf("REPLAY-NOT-REPRODUCED tries=%d replies=%d code=%d\n", tries, replies, s.requestInfo.ResponseCode())
+}
+`
+			out, _ := runOverlayTest("pkg/proxy", src, "^TestGovcReplay$")
+			return outcomeFromOutput(src, out)
+		},
+	})
+}
